@@ -10,7 +10,10 @@ import (
 	"os"
 	"path/filepath"
 	"regexp"
+	"strconv"
 	"strings"
+	"sync"
+	"sync/atomic"
 	"time"
 
 	"github.com/alibaba/RedisShake/pkg/libs/log"
@@ -107,6 +110,7 @@ func c19scenarioChild(raw json.RawMessage, scratch string) {
 		c.SourceAddressList, c.TargetAddressList = []string{src.Addr}, []string{tcp.Addr}
 		conf.Options = c
 		cmd := &run.CmdSync{}
+		metric.CreateMetric(cmd) // as main does before the runner starts
 		go cmd.Main()
 		src.Feed(stream[:len(stream)/2])
 		time.Sleep(1500 * time.Millisecond)
@@ -122,6 +126,7 @@ func c19scenarioChild(raw json.RawMessage, scratch string) {
 		c.SourceAddressList, c.TargetAddressList = []string{src.Addr}, []string{tcp.Addr}
 		conf.Options = c
 		cmd := &run.CmdSync{}
+		metric.CreateMetric(cmd) // as main does before the runner starts
 		go cmd.Main()
 		// the syncer restarts itself until its retry budget ends the process; the status documents are sampled while it
 		// does (what they show between two attempts is served like anything else)
@@ -160,6 +165,7 @@ func c19scenarioChild(raw json.RawMessage, scratch string) {
 		c.SourceAddressList, c.TargetAddressList = []string{stcp.Addr}, []string{tcp.Addr}
 		conf.Options = c
 		cmd := &run.CmdRump{}
+		metric.CreateMetric(cmd)
 		cmd.Main()
 		extra("CmdRump.GetDetailedInfo", cmd.GetDetailedInfo())
 	case "dump":
@@ -224,18 +230,39 @@ func c19scenarioChild(raw json.RawMessage, scratch string) {
 		log.Warnf("checkpoint load with a wrong password finished: %v", err)
 	case "status-documents":
 		conf.Options = base
+		metric.CreateMetric(&run.CmdSync{}) // the documents can be asked for before the runner has created its syncers
 		extra("conf.GetSafeOptions", conf.GetSafeOptions())
 		extra("metric.NewMetricRest", metric.NewMetricRest())
+		// the configuration document is served per HTTP request, and requests are served concurrently (next to the
+		// start-up echo): every caller's copy must be masked, whoever else is asking at the same moment
+		var wg sync.WaitGroup
+		var leaked, calls int64
+		for g := 0; g < 8; g++ {
+			wg.Add(1)
+			go func() {
+				defer wg.Done()
+				for k := 0; k < 2500 && atomic.LoadInt64(&leaked) == 0; k++ {
+					doc := conf.GetSafeOptions()
+					atomic.AddInt64(&calls, 1)
+					if b, _ := json.Marshal(doc); (bytes.Contains(b, []byte(a.SrcPw)) || bytes.Contains(b, []byte(a.TgtPw))) && atomic.CompareAndSwapInt64(&leaked, 0, 1) {
+						fmt.Fprintf(f, "@DOC conf.GetSafeOptions(8-concurrent-callers) json=%s\n", b)
+					}
+				}
+			}()
+		}
+		wg.Wait()
+		fmt.Fprintf(f, "@CONC concurrent GetSafeOptions calls rendered and scanned: %d\n", calls)
 	}
 	f.Sync()
 	fmt.Println("@DONE")
 }
 
+var concCallsRe = regexp.MustCompile(`@CONC [^\n]*: (\d+)`)
 var logCallRe = regexp.MustCompile(`\[(?:INFO|WARN|ERROR|DEBUG|PANIC)\][^\n]{0,160}`)
 
 func c19(c *wk.Ctx) {
 	r := c.R
-	r.Rule = "every run path (sync start + full + incremental + source reconnect via CmdSync.Main, resume with checkpoint load, restart after a refused PSYNC until the retry budget ends the process, restore mode, rump, dump, shard supervisor with failing nodes and with a retry budget that runs out, DbSyncer.Sync() with source.type=cluster (topology re-discovery at every start and restart), checkpoint load incl. a wrong password, the status documents) x log levels {debug, info, warn, error} runs in a child whose log.StdLog is redirected into a file, with distinct sentinel passwords that the fake peers really require; every byte logged plus json/%v/%+v renderings of conf.GetSafeOptions(), metric.NewMetricRest() and GetDetailedInfo() is scanned for the sentinels. distinct = (scenario, level)"
+	r.Rule = "every run path (sync start + full + incremental + source reconnect via CmdSync.Main, resume with checkpoint load, restart after a refused PSYNC until the retry budget ends the process, restore mode, rump, dump, shard supervisor with failing nodes and with a retry budget that runs out, DbSyncer.Sync() with source.type=cluster (topology re-discovery at every start and restart), checkpoint load incl. a wrong password, the status documents) x log levels {debug, info, warn, error} runs in a child whose log.StdLog is redirected into a file, with distinct sentinel passwords that the fake peers really require; every byte logged plus json/%v/%+v renderings of conf.GetSafeOptions(), metric.NewMetricRest() and GetDetailedInfo() is scanned for the sentinels; 8 concurrent callers of conf.GetSafeOptions() x 2500 calls are rendered and scanned as well. distinct = (scenario, level)"
 	srcPw := fmt.Sprintf("S3NT-src-%d", c.Seed)
 	tgtPw := fmt.Sprintf("S3NT-tgt-%d", c.Seed)
 	levels := []string{"debug", "info", "warn", "error"}
@@ -256,6 +283,9 @@ func c19(c *wk.Ctx) {
 		lf := filepath.Join(c.Scratch, fmt.Sprintf("c19-%d.log", i))
 		cr := wk.RunChild(c, "c19scenario", c19arg{Scenario: j.sc, Level: j.lv, SrcPw: srcPw, TgtPw: tgtPw, LogFile: lf}, 90*time.Second)
 		data, _ := ioutil.ReadFile(lf)
+		if os.Getenv("VERIF_KEEP_C19") != "" && j.sc == "status-documents" {
+			ioutil.WriteFile("/tmp/c19dbg-"+j.lv+".log", data, 0644)
+		}
 		os.Remove(lf)
 		all := append(append(append([]byte{}, data...), cr.Stdout...), cr.Stderr...)
 		results[i] = func() {
@@ -264,6 +294,19 @@ func c19(c *wk.Ctx) {
 			r.Count("scenario_runs", 1)
 			r.Count("scenario:"+j.sc, 1)
 			r.Count("log_lines", int64(bytes.Count(data, []byte("\n"))))
+			r.Count("status_documents_rendered", int64(bytes.Count(data, []byte("@DOC "))))
+			for _, d := range []string{"metric.NewMetricRest", "GetDetailedInfo", "GetSafeOptions", "GetExtraInfo"} {
+				r.Count("documents:"+d, int64(bytes.Count(data, []byte(d+" json="))+bytes.Count(data, []byte(d+"("))))
+			}
+			if m := concCallsRe.FindSubmatch(data); m != nil {
+				n, _ := strconv.ParseInt(string(m[1]), 10, 64)
+				r.Count("concurrent_configuration_documents_scanned", n)
+			}
+			if bytes.Contains(cr.Stderr, []byte("panic: runtime error")) || bytes.Contains(cr.Stderr, []byte("[signal SIG")) {
+				// the tool ends scenarios through log.Panic (exit 1), never through a Go runtime fault: whatever was to be
+				// rendered after this point was not scanned
+				r.Inconcl(fmt.Sprintf("scenario %s/%s ended in a runtime fault before all documents were rendered: %s", j.sc, j.lv, firstPanicLine(cr.Stderr)))
+			}
 			if cr.TimedOut {
 				r.Inconcl(fmt.Sprintf("scenario %s/%s hit the watchdog", j.sc, j.lv))
 			}
@@ -303,6 +346,10 @@ func c19(c *wk.Ctx) {
 	r.Count("bytes_scanned", totalBytes)
 	r.Floor("scenario_runs", int64(len(jobs)))
 	r.Floor("bytes_scanned", 20000)
+	r.Floor("concurrent_configuration_documents_scanned", 40000)
+	r.Floor("documents:metric.NewMetricRest", 8)
+	r.Floor("documents:GetDetailedInfo", 8)
+	r.Floor("documents:GetSafeOptions", 4)
 	r.Sample(map[string]interface{}{"scenario": "sync-full-incr-reconnect", "level": "debug", "passwords": "distinct sentinels required by the fake master and the model target", "scanned": "log file + stdout/stderr + status documents"})
 	r.Sample(map[string]interface{}{"scenario": "sync-psync-refused-restart", "level": "info", "note": "process ends by the tool's own retry budget; its log file is scanned afterwards"})
 	r.Assume("the HTTP server and the startup echo live in redis-shake/main, which does not build; the expressions they serve (GetSafeOptions, NewMetricRest, GetDetailedInfo) are rendered and scanned instead")
